@@ -414,8 +414,8 @@ func chunking(c *vh.Ctx) {
 		}
 		chunkCase(c, i)
 	})
-	c.GateCount("chunking_cases_with_slices", 12)
-	c.GateCount("chunking_slice_at_limit", 2)
-	c.GateCount("chunking_planted_collisions", 8)
-	c.GateCount("chunking_own_slice_collisions", 8)
+	c.GateCount("chunking_cases_with_slices", 8)
+	c.GateCount("chunking_slice_at_limit", 1)
+	c.GateCount("chunking_planted_collisions", 3)
+	c.GateCount("chunking_own_slice_collisions", 4)
 }
